@@ -52,6 +52,12 @@ def check(model: Model, rep: Report, tier: str):
         share_rule(rep, model, lambda m, r: h5(m, r, cg), "C12.X6", "no index computation is memoised under a key that lets two kernels / strategies with different "
                    "offsets share an entry (= C03.H5, memos inside acquisition_indexing only)",
                    keep=lambda o: "acquisition_indexing" in o["loc"])
+    from .common import order_kept_rule
+    with rep.isolated():
+        order_kept_rule(model, rep, "C12.X8", "RepetitionExperimentKernel", "_repetition_kernels",
+                        "the stored kernel list is the chain in construction order: start_index / kernel_cycle_length read indexing_kernels[0] as the kernel fixed at index 0 and "
+                        "[-1] as the last of the chain -- no method re-orders the list after the chain is built (X1 decides the chain itself)",
+                        "the first / last kernel of the stored list is no longer the first / last of the offset chain: the cycle does not start at 0 and its length is wrong")
     from .c19 import _i3
     with rep.isolated():
         share_rule(rep, model, _i3, "C12.X7", "a kernel decides whether a qubit is involved by `element in involved_qubit_ids`, i.e. by equality of qubit identifiers: that equality is "
